@@ -33,6 +33,49 @@ type cs struct {
 	Seed    uint64 `json:"seed"`
 	DeltaC  bool   `json:"delta_complement"`
 	F       Fault  `json:"fault"`
+	// Generic: run with the portable carry-less multiplier instead of the build's own (needs prep/c15.sh's overlay)
+	Generic bool `json:"generic,omitempty"`
+	// Mul: operands (a.D0, a.D1, b.D0, b.D1) of a direct multiplier comparison (fault kind "mul128")
+	Mul *[4]uint64 `json:"mul,omitempty"`
+}
+
+// clmulRef is the harness's own 128x128 -> 256 bit carry-less product (shift and xor on four words; bit i of a label is Label.Bit(i), i.e. D0 is the LOW word).
+func clmulRef(a, b ot.Label) (lo, hi ot.Label) {
+	var r [4]uint64 // little-endian words
+	bw := [2]uint64{b.D0, b.D1}
+	aw := [2]uint64{a.D0, a.D1}
+	for i := 0; i < 128; i++ {
+		if aw[i/64]>>(uint(i)%64)&1 == 0 {
+			continue
+		}
+		w, s := i/64, uint(i)%64
+		for j := 0; j < 2; j++ {
+			r[w+j] ^= bw[j] << s
+			if s != 0 {
+				r[w+j+1] ^= bw[j] >> (64 - s)
+			}
+		}
+	}
+	return ot.Label{D0: r[0], D1: r[1]}, ot.Label{D0: r[2], D1: r[3]}
+}
+
+func runMul(ctx *runner.Ctx, k cs) {
+	ctx.Eval(1)
+	a := ot.Label{D0: k.Mul[0], D1: k.Mul[1]}
+	b := ot.Label{D0: k.Mul[2], D1: k.Mul[3]}
+	wl, wh := clmulRef(a, b)
+	for _, g := range []bool{false, true} {
+		lo, hi := mul128Impl(g, a, b)
+		name := "asm"
+		if g {
+			name = "generic"
+		}
+		if !lo.Equal(wl) || !hi.Equal(wh) {
+			ctx.Violate("mul128."+name, fmt.Sprintf("mul128 (%s) of %v x %v = %v:%v, carry-less product is %v:%v", name, a, b, hi, lo, wh, wl), k)
+			return
+		}
+	}
+	ctx.Outcome("mul128-equal")
 }
 
 type session struct {
@@ -63,8 +106,8 @@ func flagsFor(p string, n int) []bool {
 }
 
 // getSession runs the honest receiver once and records its messages.
-func getSession(n int, choices string, seed uint64) *session {
-	key := fmt.Sprintf("%d/%s/%d", n, choices, seed)
+func getSession(n int, choices string, seed uint64, generic bool) *session {
+	key := fmt.Sprintf("%d/%s/%d/%v", n, choices, seed, generic)
 	sessMu.Lock()
 	defer sessMu.Unlock()
 	if s, ok := sess[key]; ok {
@@ -122,8 +165,21 @@ func flipBit(data []byte, byteRows, col, row int) bool {
 }
 
 func runCase(ctx *runner.Ctx, k cs) {
+	if k.Mul != nil {
+		if haveGeneric {
+			runMul(ctx, k)
+		}
+		return
+	}
+	if k.Generic {
+		if !haveGeneric {
+			return
+		}
+		setGeneric(true)
+		defer setGeneric(false)
+	}
 	ctx.Eval(1)
-	s := getSession(k.N, k.Choices, k.Seed)
+	s := getSession(k.N, k.Choices, k.Seed, k.Generic && haveGeneric)
 	msgs := make([]memio.Msg, len(s.msgs))
 	copy(msgs, s.msgs)
 	mut := func(i int) []byte {
@@ -215,8 +271,11 @@ func runCase(ctx *runner.Ctx, k cs) {
 	}()
 	selected := f.Col >= 0 && f.Col < 128 && d.Bit(f.Col) == 1
 	cls := fmt.Sprintf("%s/%s/sel=%v/chunk=%d/rowblock=%v", f.Kind, f.Batch, selected, f.Chunk, (f.Chunk*512+f.Row)%1024 >= 512)
+	if k.Generic {
+		cls = "generic-mul128/" + cls
+	}
 	if f.Kind == "honest" {
-		ctx.Nontrivial(fmt.Sprintf("honest/%d/%s/%v", k.N, k.Choices, k.DeltaC))
+		ctx.Nontrivial(fmt.Sprintf("honest/%d/%s/%v/generic=%v", k.N, k.Choices, k.DeltaC, k.Generic))
 		if err != nil {
 			ctx.Violate("honest-abort", fmt.Sprintf("honest execution aborted: %v (n=%d choices=%s)", err, k.N, k.Choices), k)
 			return
@@ -357,6 +416,85 @@ func work(ctx *runner.Ctx) {
 			}
 		}
 	}
+	// both carry-less multipliers: direct comparison with the harness's own product on every pair of a boundary
+	// alphabet (every single bit, dense patterns, word-boundary patterns, DRBG values), then the fault families again
+	// with the portable multiplier selected on both sides
+	if haveGeneric {
+		var alpha []ot.Label
+		for i := 0; i < 128; i++ {
+			var l ot.Label
+			l.SetBit(i, 1)
+			alpha = append(alpha, l)
+		}
+		ones := ^uint64(0)
+		alpha = append(alpha, ot.Label{}, ot.Label{D0: ones, D1: ones}, ot.Label{D0: ones}, ot.Label{D1: ones},
+			ot.Label{D0: 0x5555555555555555, D1: 0x5555555555555555}, ot.Label{D0: 0xAAAAAAAAAAAAAAAA, D1: 0xAAAAAAAAAAAAAAAA},
+			ot.Label{D0: 1, D1: 1 << 63}, ot.Label{D0: 1 << 63, D1: 1}, ot.Label{D0: 0xFFFFFFFF, D1: 0xFFFFFFFF00000000},
+			ot.Label{D0: 0x8000000000000000, D1: 0x8000000000000000}, ot.Label{D0: 0x0123456789abcdef, D1: 0xfedcba9876543210})
+		rd := drbg.New(seed*2 + 77)
+		for i := 0; i < 12; i++ {
+			l, _ := ot.NewLabel(rd)
+			alpha = append(alpha, l)
+		}
+		for _, a := range alpha {
+			for _, b := range alpha {
+				if !emit(cs{Seed: seed, F: Fault{Kind: "mul128"}, Mul: &[4]uint64{a.D0, a.D1, b.D0, b.D1}}) {
+					return
+				}
+			}
+		}
+		gh := []int{}
+		for n := 1; n <= 130; n++ {
+			gh = append(gh, n)
+		}
+		gh = append(gh, 511, 512, 513, 1025)
+		for _, n := range gh {
+			for _, ch := range []string{"zero", "one", "alt"} {
+				if !emit(cs{N: n, Choices: ch, Seed: seed, Generic: true, F: Fault{Kind: "honest"}}) {
+					return
+				}
+			}
+		}
+		gn := []int{9, 64, 130}
+		if ctx.Quick() {
+			gn = []int{9}
+		}
+		for _, n := range gn {
+			for _, dc := range []bool{false, true} {
+				rows := (n + 7) / 8 * 8
+				for c := 0; c < 128; c++ {
+					for r := 0; r < rows; r++ {
+						if !emit(cs{N: n, Choices: "alt", Seed: seed, DeltaC: dc, Generic: true, F: Fault{Kind: "single", Batch: "payload", Col: c, Row: r}}) {
+							return
+						}
+					}
+					for r := 0; r < 256; r++ {
+						if ctx.Quick() && r%8 != c%8 {
+							continue
+						}
+						if !emit(cs{N: n, Choices: "alt", Seed: seed, DeltaC: dc, Generic: true, F: Fault{Kind: "single", Batch: "check", Col: c, Row: r}}) {
+							return
+						}
+					}
+					for _, batch := range []string{"payload", "check"} {
+						if !emit(cs{N: n, Choices: "alt", Seed: seed, DeltaC: dc, Generic: true, F: Fault{Kind: "col", Batch: batch, Col: c}}) {
+							return
+						}
+					}
+				}
+				for l := 0; l < 4; l++ {
+					for bit := 0; bit < 128; bit++ {
+						if !emit(cs{N: n, Choices: "alt", Seed: seed, DeltaC: dc, Generic: true, F: Fault{Kind: "resp", Batch: "resp", Arg: l, Col: bit}}) {
+							return
+						}
+					}
+				}
+			}
+		}
+		ctx.Note("both carry-less multipliers exercised: the amd64 CLMUL assembly and the portable mul128Generic (selected through the check-time overlay), each compared with the harness's own product and run through the honest and fault families")
+	} else {
+		ctx.Note("the overlay that exposes the portable multiplier could not be derived from the tree: only the build's own mul128 ran")
+	}
 	// multi-chunk batches: every row of every chunk for 8 columns, and every column for boundary rows
 	big := []int{513, 600, 1024, 1030, 1537, 2049}
 	if ctx.Quick() {
@@ -428,7 +566,7 @@ func main() {
 			"distinct_nontrivial = distinct (fault kind, batch, column selected?, chunk, row block, n) classes plus honest sizes",
 		Assumptions: []string{
 			"base OT = ideal functionality; the receiver's honest message list is recorded once per (n, choices, seed) and the real sender is re-run on each mutated list",
-			"mul128 = the implementation the normal build selects (CLMUL assembly on amd64)",
+			"mul128: the CLMUL assembly the amd64 build selects for all families; the portable implementation additionally (direct comparison on 155^2 operand pairs, honest runs, single/column/response faults) when the check-time overlay applies (see notes)",
 		},
 		Work:           work,
 		Replay:         replay,
